@@ -698,6 +698,68 @@ def compare_step(label, before, after, lossy, fails, tags, where, st=None):
     return res
 
 
+def roundtrips(x):
+    """copies of a value as coba makes them: pickle (multiprocessing, caches) and deepcopy; yields (name, copy); a copier that cannot
+    take the value at all (lambda rewards under pickle) is skipped.  (coba.json is not used: JSON has no tuples, so a tuple action
+    comes back as a list while a reward object's literal state keeps the tuple - that is the result log's concern, not C10's.)"""
+    import pickle, copy
+    try:
+        yield "pickle", pickle.loads(pickle.dumps(x))
+    except Exception:
+        pass
+    try:
+        yield "deepcopy", copy.deepcopy(x)
+    except Exception:
+        pass
+
+
+def check_roundtrips(label, ms, fails, tags, where, limit=3):
+    """(B) on copies: the re-represented interaction must keep its action<->reward pairing through pickle / deepcopy / coba.json.
+    Whole-interaction copies (actions and reward function copied together) and copies of the reward object alone (asked about the
+    original action objects)."""
+    for t, m in enumerate(ms[:limit]):
+        if "actions" not in m:
+            continue
+        for key in ("rewards", "feedbacks"):
+            if key not in m or not callable(m[key]):
+                continue
+            ob = obs_target(m, key)
+            if ob is None or any(isinstance(x, str) for x in ob):
+                continue
+            tags.append("roundtrip-checked")
+            for name, cp in roundtrips({"actions": m["actions"], key: m[key]}):
+                oc = obs_target(cp, key)
+                if not obs_eq(ob, oc):
+                    fails.append(F("B", "%s: interaction %d after %s: a %s copy of the interaction gives its actions the %s %s, the interaction itself %s (actions %s)"
+                                   % (where, t, label, name, key, json.dumps(obs_json(oc)), json.dumps(obs_json(ob)), json.dumps([enc(a) for a in m["actions"]])[:300]),
+                                   "roundtrip(%s):%s:%s" % (name, key, rkind(m[key]))))
+            for name, cp in roundtrips(m[key]):
+                oc = obs_target({"actions": m["actions"], key: cp}, key)
+                if not obs_eq(ob, oc):
+                    fails.append(F("B", "%s: interaction %d after %s: a %s copy of the %s object answers %s for the actions, the object itself %s (actions %s)"
+                                   % (where, t, label, name, key, json.dumps(obs_json(oc)), json.dumps(obs_json(ob)), json.dumps([enc(a) for a in m["actions"]])[:300]),
+                                   "roundtrip(%s):%s:%s" % (name, key, rkind(m[key]))))
+
+
+def check_representation_function(o, n, repmap, fails, tags, where, label, t):
+    """(B) across the interactions of one stream: the new representation is a function of the action - wherever the same action value
+    occurs (any interaction, any position) it gets the same representation.  An output that shows one action's features while it pays
+    another action's reward is exactly a change of "which action earns which reward".  `repmap`: canonical JSON of the old action ->
+    (canonical JSON of its representation, where first seen).  Not applied to pipelines with action noise (different by design)."""
+    if "actions" not in o or "actions" not in n or len(o["actions"]) != len(n["actions"]):
+        return
+    for i, (a, b) in enumerate(zip(o["actions"], n["actions"])):
+        ka, kb = json.dumps(enc(a), sort_keys=True), json.dumps(enc(b), sort_keys=True)
+        seen = repmap.get(ka)
+        if seen is None:
+            repmap[ka] = (kb, t, i)
+        elif seen[0] != kb:
+            fails.append(F("B", "%s: interaction %d: after %s action %d, %s, is represented as %s; the same action was represented as %s in interaction %d (position %d): "
+                           "the features shown for an action are those of another action while the reward paid is this action's"
+                           % (where, t, label, i, ka[:150], kb[:150], seen[0][:150], seen[1], seen[2]), "%s:representation-not-a-function" % label))
+            return
+
+
 def enc_any(it):
     return {k: ([enc(a) for a in v] if k == "actions" else enc(v)) for k, v in it.items() if k in ("context", "actions", "action")}
 
@@ -1153,6 +1215,41 @@ class Gen:
             out["delivery"] = "lazy"
         return out
 
+    def long_repr_case(self):
+        """a streamed environment that builds a fresh action list per interaction: 100-160 interactions over one categorical action set,
+        the first two action lists equal (Repr's repeated-action-set fast path), later ones in a PRNG order; delivered lazily"""
+        r = self.r
+        L = r.shuffle(LEVELS)[:r.choice([2, 3, 3, 4])]
+        as_rows = r.chance(0.3)
+        def act(l):
+            c = {"c": l, "L": list(L)}
+            return {"t": [c, V_n(1)]} if as_rows else c
+        kind = r.choice(["sim", "sim", "logged", "igl"])
+        rk = r.choice(["list", "discrete", "binary", "fn"])
+        stream = []
+        for t in range(r.randint(100, 160)):
+            order = list(L) if t < 2 else r.shuffle(L)
+            acts = [act(l) for l in order]
+            vals = [q(LEVELS.index(l) + 10 * (t % 7)) for l in order]
+            if rk == "list":
+                rw = {"k": "list", "v": vals}
+            elif rk == "discrete":
+                rw = {"k": "discrete", "actions": _copy(acts), "values": vals, "default": [0, 1], "dict": False}
+            elif rk == "binary":
+                rw = {"k": "binary", "argmax": _copy(acts[t % len(acts)]), "value": [1, 1]}
+            else:
+                rw = {"k": "fn", "table": [[a, v] for a, v in zip(_copy(acts), vals)], "default": FN_DEFAULT}
+            it = {"context": V_n(t % 5), "actions": acts, "rewards": rw}
+            if kind == "igl":
+                it["feedbacks"] = {"k": "fn", "table": [[a, v] for a, v in zip(_copy(acts), vals[::-1])], "default": FN_DEFAULT}
+            if kind == "logged":
+                it = {"context": V_n(t % 5), "actions": acts, "action": _copy(acts[-1]), "reward": q(t % 9), "probability": [1, 4]}
+            stream.append(it)
+        chain = [r.choice([{"f": "repr", "cc": r.choice(MODES), "ca": r.choice(MODES[1:])}, {"f": "repr", "cc": "onehot", "ca": "onehot"}, {"f": "finalize"}])]
+        if r.chance(0.3):
+            chain.append(r.choice([{"f": "sparsify", "c": False, "a": True}, {"f": "flatten"}, {"f": "finalize"}]))
+        return {"stream": stream, "chain": chain, "via": r.wchoice([(60, "filters"), (15, "pipes"), (25, "shortcuts")]), "delivery": "lazy"}
+
     def collection_case(self, P, case):
         """one Environments object with 2-3 member environments over different feature vocabularies; the shortcuts are applied to the
         collection and the members are read one after the other, in a PRNG order (sometimes a member twice)"""
@@ -1192,6 +1289,8 @@ class Gen:
 
     def case(self, tier, focus=None):
         r = self.r
+        if focus is None and r.chance(0.03):
+            return self.long_repr_case()
         # "long": 20-60 interactions with fresh action objects each, delivered lazily (objects of earlier interactions die while reading)
         long_ = focus is None and r.chance(0.07)
         reuse = (not long_ and r.chance(0.15)) or (long_ and r.chance(0.2))
@@ -1316,8 +1415,8 @@ class C10(Property):
 
     def search(self, rng, tier):
         g = Gen(rng)
-        if rng.chance(0.25):
-            return g.indicator_collection(None, None) if rng.chance(0.6) else g.case(tier)
+        if rng.chance(0.3):
+            return g.indicator_collection(None, None) if rng.chance(0.5) else g.long_repr_case() if rng.chance(0.5) else g.case(tier)
         focus = rng.choice([
             lambda g: {"f": "repr", "cc": g.r.choice(MODES), "ca": g.r.choice(MODES[1:])},
             lambda g: {"f": "sparsify", "c": g.r.chance(0.5), "a": True},
@@ -1391,6 +1490,20 @@ class C10(Property):
         ha, hb = {"d": [["a", V_n(1)]]}, {"d": [["b", V_n(1)]]}
         cs.append({"stream": [{"context": None, "actions": [ha, hb], "rewards": {"k": "fn", "table": [[ha, [5, 1]], [hb, [6, 1]]], "default": FN_DEFAULT}}],
                    "chain": [{"f": "densify", "n": 7, "m": "hashing", "c": False, "a": True}], "via": "filters"})
+        # BinaryReward re-keyed to one-hot argmaxes of every length incl. 2 (value 1 and another value), tuple / list argmaxes of length 1-4:
+        # the re-represented interactions are copied (pickle, deepcopy) and must keep the pairing
+        for nlev in (1, 2, 3, 4):
+            L = LEVELS[:nlev]
+            cats = [{"c": x, "L": L} for x in L]
+            for val in ([1, 1], [3, 1]):
+                for ch in ([{"f": "repr", "cc": None, "ca": "onehot"}], [{"f": "repr", "cc": None, "ca": "onehot_tuple"}], [{"f": "finalize"}],
+                           [{"f": "repr", "cc": None, "ca": "onehot"}, {"f": "sparsify", "c": False, "a": True}]):
+                    cs.append({"stream": [{"context": None, "actions": cats, "rewards": {"k": "binary", "argmax": cats[-1], "value": val},
+                                           "feedbacks": {"k": "binary", "argmax": cats[0], "value": val}}], "chain": ch, "via": "filters"})
+            for kind in ("t", "l"):
+                rows = [{kind: [V_n(i + j) for j in range(nlev)]} for i in range(2)]
+                cs.append({"stream": [{"context": None, "actions": rows, "rewards": {"k": "binary", "argmax": rows[1], "value": [1, 1]}}],
+                           "chain": [{"f": "flatten"}, {"f": "finalize"}], "via": "filters"})
         # batched pipelines whose batched reward / feedback functions are exercised through the call protocol
         A2, B2 = ({"c": x, "L": ["a", "b"]} for x in "ab")
         for ch in ([{"f": "batch", "n": 2}], [{"f": "batch", "n": 2}, {"f": "repr", "cc": None, "ca": "onehot"}], [{"f": "batch", "n": 3}, {"f": "sparsify", "c": False, "a": True}],
@@ -1621,6 +1734,8 @@ class C10(Property):
                 cycled = True
                 continue
             r = compare_step(label, before, after, is_lossy(st, before), fails, tags, where + "step", st)
+            if r["ok"] and not r["excused"]:
+                check_roundtrips(label, after, fails, tags, where + "step")
             if not r["ok"]:
                 stop = "fail"
             elif r["excused"]:
@@ -1635,6 +1750,8 @@ class C10(Property):
         # the real pipeline, lazily composed
         impl_err, final, sizes = pipe_err, None, None
         batch_obs = None
+        # representation-is-a-function check: not for pipelines that add action noise (every occurrence differs by design)
+        repmap = None if any(st["f"] == "noise" and st.get("a") for st in chain) else {}
         if pipe is not None:
             try:
                 if lazy:
@@ -1652,6 +1769,8 @@ class C10(Property):
                             has_target = has_target or callable(o.get("rewards")) or callable(o.get("feedbacks")) or ("action" in o and "actions" in o)
                             if not stop:
                                 compare_step(plabel, [o], [m], False, fails, tags, where + "pipeline, interaction %d" % t)
+                                if repmap is not None:
+                                    check_representation_function(o, m, repmap, fails, tags, where + "pipeline", plabel, t)
                             final.append(interaction_json(m))
                             t += 1
                         del ms, out
@@ -1665,6 +1784,9 @@ class C10(Property):
                     # the whole pipeline against the original, unless a step already explains or excuses it
                     if not stop:
                         compare_step(plabel, original, fin, False, fails, tags, where + "pipeline")
+                        if repmap is not None and len(original) == len(fin):
+                            for t_, (o_, m_) in enumerate(zip(original, fin)):
+                                check_representation_function(o_, m_, repmap, fails, tags, where + "pipeline", plabel, t_)
                     if sizes is not None and not stop and all(pairwise_distinct(m["actions"]) for m in fin if "actions" in m):
                         self.check_batch_call(out, original, fails, tags)
                     final = [interaction_json(it) for it in fin]
